@@ -507,7 +507,7 @@ func main() {
 	}
 
 	// 3. budget
-	d.budget = 45
+	d.budget = 50
 	if d.tier == "thorough" {
 		d.budget = 1080
 	}
